@@ -226,6 +226,8 @@ def coq_hygiene():
 
 def build_model(timeout=900):
     """Re-extract (if needed) and build the OCaml model driver.  Returns path of szmodel."""
+    for d in ("ocaml/gen", "evidence", "replays", ".cache"):       # a fresh checkout has none of these (they are not committed)
+        os.makedirs(os.path.join(VERIF, d), exist_ok=True)
     ok, out = coq_make(["Extract/Extract.vo"])
     if not ok:
         raise RuntimeError("model extraction failed:\n" + out[-4000:])
